@@ -40,6 +40,8 @@ pub enum Op {
     Raw { words: Vec<String>, decimal_from: usize },
     /// tokenizer + basic_annotate
     Annotate { text: String },
+    /// basic_annotate over a caller-owned token type (every accessor is a seam that can crash)
+    AnnotateCustom { words: Vec<String> },
     /// get_interpreter_for(code) then text2digits
     Lookup { code: String, text: String },
 }
@@ -52,6 +54,24 @@ pub struct Call {
     /// client crash: the caller-owned seam crossing with this number panics (0 = never)
     #[serde(default)]
     pub crash_at: u64,
+}
+
+/// Caller-owned token type for `basic_annotate`.
+struct ATok<'a> {
+    lower: String,
+    nan: bool,
+    log: &'a Log,
+}
+
+impl text2num::BasicAnnotate for ATok<'_> {
+    fn text_lowercase(&self) -> &str {
+        self.log.ev(EV_LOWER, 0);
+        &self.lower
+    }
+    fn set_nan(&mut self, val: bool) {
+        self.log.ev(EV_NAN, val as u64);
+        self.nan = val
+    }
 }
 
 /// Replace constructor without any context: merges what it is handed.
@@ -195,6 +215,11 @@ fn exec_with<L: LangInterpreter>(l: &L, call: &Call, yield_on: bool) -> String {
             cl.basic_annotate(&mut toks);
             toks.iter().map(|t| if t.nan { '!' } else { '.' }).collect::<String>()
         }
+        Op::AnnotateCustom { words } => {
+            let mut toks: Vec<ATok> = words.iter().map(|w| ATok { lower: w.to_lowercase(), nan: false, log: &log }).collect();
+            l.basic_annotate(&mut toks);
+            toks.iter().map(|t| if t.nan { '!' } else { '.' }).collect::<String>()
+        }
         Op::Lookup { code, text } => match get_interpreter_for(code) {
             Some(li) => match text2digits(text, &li) {
                 Ok(s) => format!("Some:Ok({s})"),
@@ -242,7 +267,19 @@ pub fn gen_call(rng: &mut Rng) -> Call {
         }
         w.into_iter().map(|s| s.to_string()).collect()
     };
-    let op = match rng.below(11) {
+    let op = match rng.below(12) {
+        11 => {
+            // words and separators as separate caller-owned tokens, ambiguity triggers included
+            let n = rng.range(1, 10);
+            let mut w: Vec<String> = vec![];
+            for t in gen_stream(rng, pool, &cfg, n) {
+                w.push(t.text);
+                if rng.chance(1, 2) {
+                    w.push(" ".to_string());
+                }
+            }
+            Op::AnnotateCustom { words: w }
+        }
         10 => {
             // a single inflectable word: ordinal, compound or composite
             let w = match rng.below(3) {
@@ -389,7 +426,7 @@ pub fn variant_of(rng: &mut Rng, c: &Call) -> Call {
         _ => match &mut v.op {
             Op::T2d { text } | Op::Rewrite { text, .. } | Op::Annotate { text } | Op::Lookup { text, .. } => *text = inflect_text(rng, text),
             Op::Find { toks, .. } | Op::FindIter { toks, .. } | Op::RewriteStream { toks, .. } => *toks = inflect_toks(rng, toks),
-            Op::Raw { words, .. } => {
+            Op::Raw { words, .. } | Op::AnnotateCustom { words } => {
                 let k = rng.below(words.len().max(1));
                 if let Some(w) = words.get_mut(k) {
                     *w = inflect(rng, w).to_lowercase();
@@ -402,9 +439,86 @@ pub fn variant_of(rng: &mut Rng, c: &Call) -> Call {
 
 /// Corpus = families of related calls; `family_start[i]` is the index of the first member
 /// of the family call i belongs to.
+/// Every ending a lemmatizer might strip or a marker might depend on, applied to `w`.
+fn all_inflections(w: &str) -> Vec<String> {
+    let mut v = vec![w.to_string()];
+    let chars: Vec<char> = w.chars().collect();
+    if let Some(&last) = chars.last() {
+        let stem: String = chars[..chars.len() - 1].iter().collect();
+        if matches!(last, 'o' | 'a' | 'e' | 'i') {
+            for r in ['o', 'a', 'e', 'i'] {
+                if r != last {
+                    v.push(format!("{stem}{r}"));
+                }
+            }
+            v.push(format!("{stem}os"));
+            v.push(format!("{stem}as"));
+        }
+        if last == 's' {
+            v.push(stem.clone());
+        } else {
+            v.push(format!("{w}s"));
+        }
+        if w.ends_with("te") {
+            for r in ['r', 'n', 's', 'm'] {
+                v.push(format!("{w}{r}"));
+            }
+        }
+        if w.ends_with("ier") {
+            v.push(format!("{}ière", &w[..w.len() - 3]));
+            v.push(format!("{w}s"));
+        }
+    }
+    let mut c = w.chars();
+    if let Some(f) = c.next() {
+        v.push(f.to_uppercase().collect::<String>() + c.as_str());
+    }
+    v
+}
+
+/// Systematic families: every inflectable pool word (ordinals, composites, generated compounds)
+/// with all its inflections, as adjacent calls - what a cache keyed by a normalised form confuses.
+fn systematic_families(rng: &mut Rng, budget: usize) -> Vec<Call> {
+    let mut out = vec![];
+    let mut lang_order: Vec<usize> = (0..7).collect();
+    for i in (1..7).rev() {
+        let j = rng.below(i + 1);
+        lang_order.swap(i, j);
+    }
+    let per_lang = budget / 7;
+    for &lang in &lang_order {
+        let pool = &POOLS[lang];
+        let mut words: Vec<String> = pool.ordinals.iter().chain(pool.composite.iter()).map(|s| s.to_string()).collect();
+        for _ in 0..6 {
+            words.push(gen_compound(rng, pool));
+        }
+        // shuffle, so that different seeds sweep different words first
+        for i in (1..words.len()).rev() {
+            let j = rng.below(i + 1);
+            words.swap(i, j);
+        }
+        let start = out.len();
+        'w: for w in &words {
+            for v in all_inflections(w) {
+                if out.len() - start >= per_lang {
+                    break 'w;
+                }
+                let concrete = rng.chance(1, 2);
+                let op = match rng.below(4) {
+                    0 => Op::Rewrite { text: format!("{} {} {}", rng.word(pool.content), v, rng.word(pool.content)), thr: "0".into() },
+                    1 => Op::Raw { words: vec![v.to_lowercase()], decimal_from: usize::MAX },
+                    _ => Op::T2d { text: v },
+                };
+                out.push(Call { lang, concrete, op, crash_at: 0 });
+            }
+        }
+    }
+    out
+}
+
 pub fn gen_corpus(seed: u64, n: usize) -> Vec<Call> {
     let mut rng = Rng::new(crate::rng::run_seed(seed, "C14-corpus", 0));
-    let mut out: Vec<Call> = Vec::with_capacity(n + 4);
+    let mut out: Vec<Call> = systematic_families(&mut rng, n / 3);
     while out.len() < n {
         let base = gen_call(&mut rng);
         let nvar = *rng.pick(&[0usize, 0, 1, 2, 3, 4]);
@@ -602,6 +716,25 @@ impl Check for C14 {
                 out.push(Case { trace: None, sched_seed: c.sched_seed.wrapping_add(k * 0x9E37_79B9), policy: (k % 6) as u8, ..c.clone() });
             }
         };
+        // drop calls no thread refers to (re-index) before anything else: it makes every later clone cheap
+        let used0: Vec<bool> = (0..case.calls.len()).map(|i| case.threads.iter().any(|t| t.contains(&i))).collect();
+        if used0.iter().any(|u| !u) {
+            let mut map = vec![0usize; case.calls.len()];
+            let mut c = Case { calls: vec![], expected: vec![], ..case.clone() };
+            for i in 0..case.calls.len() {
+                if used0[i] {
+                    map[i] = c.calls.len();
+                    c.calls.push(case.calls[i].clone());
+                    c.expected.push(case.expected[i].clone());
+                }
+            }
+            for t in c.threads.iter_mut() {
+                for x in t.iter_mut() {
+                    *x = map[*x];
+                }
+            }
+            return vec![c];
+        }
         // fewer threads
         if case.threads.len() > 1 {
             for t in 0..case.threads.len() {
@@ -620,6 +753,16 @@ impl Check for C14 {
                 let mut c = case.clone();
                 c.threads[t] = case.threads[t][..n / 2].to_vec();
                 reseed(&c, &mut out);
+            }
+            // chunk removal for long histories, single-call removal only once they are short
+            if n > 64 {
+                let step = n / 8;
+                for k in 0..8 {
+                    let mut c = case.clone();
+                    c.threads[t].drain(k * step..((k + 1) * step).min(n));
+                    out.push(Case { trace: None, ..c });
+                }
+                continue;
             }
             for i in 0..n {
                 if case.threads.len() == 1 && n == 1 {
